@@ -138,7 +138,9 @@ func c19ClientFilter(c *Ctx) {
 		return ok && core.SameField(core.FieldOfAddr(fa), readPortF) && strings.HasSuffix(core.PathOf(st.Val), ".Port") && fromRead(st.Val, res, 0)
 	}
 	ff := &factFlow{}
-	ff.inline = func(h *ssa.Function) bool { return h.Pkg == fn.Pkg && !token.IsExported(h.Name()) && len(h.Blocks) <= 30 }
+	ff.inline = func(h *ssa.Function) bool {
+		return h.Pkg == fn.Pkg && !token.IsExported(h.Name()) && len(h.Blocks) <= 30
+	}
 	nIPTests, nPortTests := 0, 0
 	ff.onEdge = func(cond ssa.Value, pol bool, res func(ssa.Value) ssa.Value) (uint, uint) {
 		switch x := cond.(type) {
